@@ -3,14 +3,14 @@ from engine.rulelib import *
 from engine import desc as D
 
 EXPLANATION = ("Static rules over quinn-udp / quinn MIR (Linux x86-64 build): (a) PATH-SUM-BOUND: the maximum over all CFG paths of prepare_msg of the CMSG_SPACE of the "
-               "control messages pushed (with gso::set_segment_size included) is <= cmsg::LEN, no push sits in a loop; and the receive control buffer holds the sum of "
+               "control messages pushed (with the UDP_SEGMENT push of gso::set_segment_size, called or inlined, included) is <= cmsg::LEN, no push sits in a loop; and the receive control buffer holds the sum of "
                "CMSG_SPACE of every kernel->user message enabled by UdpSocketState::new (per address family, worst case IPv4-mapped on dual-stack); (b) the control length "
                "announced to the kernel is cmsg::LEN and the control pointer is the LEN-sized aligned buffer; iovlen = 1; namelen = sizeof(sockaddr_storage) on receive; "
                "(c) every Encoder is finished before sendmsg; cmsg::decode::<T> is used with the kernel type of each (level, type); (d) segmentation request only when "
                "segment_size < len, independent of the einval fallback flag; ECN / source address control messages carry the transmit's values in the right fields; walked path by path, prepare_msg pushes IP_TOS or "
                "IPV6_TCLASS for every destination unless the EINVAL fallback flag is set, and whether IPV6_TCLASS is pushed depends on the tests of transmit.destination alone "
                "(the fallback may only drop IP_TOS); the "
-               "receive stride defaults to len and is overridden only by UDP_GRO; (e) offload degradation: EIO/EINVAL stores max_gso_segments = 1 and, the first time, "
+               "receive stride defaults to len and is overridden only by UDP_GRO; (e) offload degradation: EIO/EINVAL stores max_gso_segments = 1 (reachable from the failed sendmsg when every test of raw_os_error() - pattern, ==, != or kept in a bool - takes the edge of that errno) and, the first time, "
                "re-prepares the message and retries; Interrupted loops, WouldBlock is returned; (f) batch splitting in the async endpoint by meta.len / meta.stride and "
                "field-for-field Transmit conversion; (g) the socket-wide UDP_SEGMENT option set by the GSO support probe is set back to 0 on every successful path, so that transmits "
                "without an UDP_SEGMENT control message stay single datagrams; (h) addresses on receive: msg_name / msg_namelen of a receive header are the sockaddr_storage "
@@ -104,12 +104,16 @@ def rule_a(ctx):
     F = ctx.facts
     LEN = F.const_int('quinn_udp::cmsg::LEN')
     pm = ctx.ufn('prepare_msg')
-    ss = ctx.ufn('gso::set_segment_size')
+    # the helper may have been inlined into prepare_msg: its push is then a direct Encoder::push site there (weighed like the
+    # others; rule d requires that an (SOL_UDP, UDP_SEGMENT) push site exists either way)
+    ss = F.try_fn('gso::set_segment_size', 'quinn_udp')
     w = {}
     for c in pm.calls():
         if c.is_('Encoder::push') and c.sz:
             w[c.bb] = cmsg_space(c.sz[-1])
         elif c.is_('gso::set_segment_size'):
+            if ss is None:
+                raise CheckBroken('anchor=gso::set_segment_size is called by prepare_msg but matches no single function')
             inner = [x for x in ss.calls() if x.is_('Encoder::push') and x.sz]
             w[c.bb] = sum(cmsg_space(x.sz[-1]) for x in inner)
     ctx.floor('a', 'control_message_push_sites', len(w), 4)
@@ -821,19 +825,43 @@ def _peer_address(ctx, dr, rm, dd):
     ctx.check(bool(rm) and not msgs, 'd', 'recv_meta_addresses', dr, dr.where(), 'addr: decode_socket_addr(name)?, dst_ip: ctrl.dst_ip', 'RecvMeta no longer reports the addresses of the received datagram: %s' % '; '.join(msgs))
 
 
+def _is_udp_segment_push(F, c):
+    """Encoder::push(encoder, SOL_UDP, UDP_SEGMENT, value): the per-message segmentation request (Linux ABI numbers, udp(7))"""
+    return c.is_('Encoder::push') and len(c.args) == 4 and (_int_const(arg_desc(F, c, 1)), _int_const(arg_desc(F, c, 2))) == UDP_SEGMENT_OPT
+
+
+def _segment_size_sites(F, pm):
+    """(call, index of the segment-size argument) of the sites of prepare_msg that put the UDP_SEGMENT control message into the
+    encoder: a call of the helper gso::set_segment_size(encoder, size) whose body pushes (SOL_UDP, UDP_SEGMENT, <its size
+    parameter>) and nothing else, or — the helper inlined — that very Encoder::push(SOL_UDP, UDP_SEGMENT, size) in prepare_msg
+    itself.  A helper that no longer pushes exactly this message is not a site (the floor reports it)."""
+    live = pm.live_blocks()
+    out = [(c, 3) for c in pm.calls_to('Encoder::push') if c.bb in live and _is_udp_segment_push(F, c)]
+    ss = F.try_fn('gso::set_segment_size', 'quinn_udp')
+    if ss is not None:
+        inner = [x for x in ss.calls_to('Encoder::push') if x.bb in ss.live_blocks()]
+        ok = len(inner) == 1 and _is_udp_segment_push(F, inner[0]) and ss.argc == 2
+        if ok:
+            v = arg_desc(F, inner[0], 3)
+            ok = _roots(v) == {2} and not any(x[0] == 'bin' for x in walk(v)) and not D.const_offsets(v)
+        if ok:
+            out += [(c, 1) for c in pm.calls_to('gso::set_segment_size') if c.bb in live]
+    return out
+
+
 def rule_d(ctx):
     F = ctx.facts
     _effective_segment_size(ctx)
     pm = ctx.ufn('prepare_msg')
-    seg = pm.calls_to('gso::set_segment_size')
+    seg = _segment_size_sites(F, pm)
     ctx.floor('d', 'segment_size_sites', len(seg), 1)
-    for c in seg:
+    for c, vi in seg:
         es = [br for br in branches(F, pm) if br.desc[0] == 'discr' and D.has_call(br.desc, 'Transmit::effective_segment_size') and pm.dominates(br.bb, c.bb)]
         ev = [br for br in branches(F, pm) if D.has_param(br.desc, name='sendmsg_einval') and pm.dominates(br.bb, c.bb) and any(c.bb not in pm.reachable_from(t, avoid=[br.bb]) for _, t in br.edges)]
         ctx.check(bool(es), 'd', 'segment_size_pushed_iff_effective', pm, c.where(), 'if let Some(segment_size) = effective_segment_size()', 'UDP_SEGMENT is not tied to effective_segment_size()')
         ctx.check(not ev, 'd', 'segmentation_independent_of_einval_fallback', pm, c.where(), 'not conditioned on sendmsg_einval',
                   'UDP_SEGMENT is omitted in the EINVAL fallback mode: a multi-segment transmit sent (or retried) after a sendmsg failure goes out as one merged datagram')
-        a = arg_desc(F, c, 1)
+        a = arg_desc(F, c, vi)
         ctx.check(D.has_call(a, 'Transmit::effective_segment_size'), 'd', 'segment_size_value', pm, c.where(), D.render(a)[:80], 'the segment size pushed is not the transmits effective segment size')
     # ECN pushed from transmit.ecn; in_pktinfo literal
     d = describer(F, pm)
@@ -891,8 +919,8 @@ def rule_e(ctx):
     gs = [c for c in sn.calls() if c.bb in sn.live_blocks() and short(c.f).endswith('::store') and D.has_field(arg_desc(F, c, 0), 'max_gso_segments')]
     ok = bool(gs) and all(arg_desc(F, c, 1)[:3] == ('const', 'int', '1') for c in gs)
     # ... and the store is reached for EIO as well as for EINVAL (before the next sendmsg)
-    eno = _errno_edges(F, sn)
-    miss = [nm for nm, v in ERRNO.items() if not any(c.bb in sn.reachable_from(t, avoid=smb) for t in eno.get(v, ()) for c in gs)]
+    #     errno tests may be pattern matches, `==` / `!=` against Some(E..), or materialised bools (`let x = a == .. || ..`)
+    miss = [nm for nm, v in ERRNO.items() if not any(c.bb in _reach_under_errno(F, sn, v, smb) for c in gs)]
     ctx.check(ok and not miss, 'e', 'offload_halted_on_error', sn, (gs[0].where() if gs else sn.where()), 'max_gso_segments.store(1) on Some(EIO) | Some(EINVAL)',
               'GSO is not switched off after %s' % ('/'.join(miss) if ok else 'EIO/EINVAL (no store of 1)'))
     # match e.kind(): Interrupted retries sendmsg (nothing returned, nothing re-prepared), WouldBlock returns Err(e)
@@ -919,25 +947,98 @@ ERRNO = {'EIO': 5, 'EINVAL': 22}
 ERRKIND = {'WouldBlock': 13, 'Interrupted': 35}
 
 
-def _errno_edges(F, body):
-    """errno value -> target blocks taken when `e.raw_os_error()` is Some(errno): SwitchInt on the Some payload, or an
-    equality test against Some(<const>)"""
-    out = {}
-    for br in branches(F, body):
-        x = br.desc
-        if x[0] == 'field' and x[2] == '0' and x[1][0] == 'variant' and x[1][2] == 'Some' and _is_call(x[1][1], 'Error::raw_os_error', 'io::Error::raw_os_error'):
-            for v, t in br.edges:
-                if v is not None:
-                    out.setdefault(v, []).append(t)
-            continue
-        rel = relation_on(x, True)
-        if rel and rel[0] in ('Eq', 'Ne'):
-            for p, q in ((rel[1], rel[2]), (rel[2], rel[1])):
-                if D.has_call(p, 'Error::raw_os_error') and not D.has_call(q, 'Error::raw_os_error'):
-                    ks = [int(c[2]) for c in walk(q) if c[0] == 'const' and c[1] == 'int' and str(c[2]).lstrip('-').isdigit()]
-                    if len(ks) == 1:
-                        out.setdefault(ks[0], []).append(br.target(1 if rel[0] == 'Eq' else 0))
-    return out
+def _errno_value(x, k):
+    """value of a SwitchInt discriminant descriptor when `e.raw_os_error()` is Some(k); None = not decided by that.
+    `if let Some(E) = ..` / `match` (discriminant = 1, payload = k), `raw == Some(c)` / `!=` (also with the operands swapped and
+    through `!`), literals, and a phi all of whose alternatives have one value (`a == Some(EIO) || a == Some(EINVAL)` kept in a
+    named bool is phi[(a == Some(EINVAL)) | true] in MIR) are tests of the same errno."""
+    if not isinstance(x, tuple) or not x:
+        return None
+    is_raw = lambda v: _is_call(v, 'Error::raw_os_error', 'io::Error::raw_os_error')
+    if x[0] == 'const':
+        return _int_const(x)
+    if x[0] == 'discr' and is_raw(x[1]):
+        return 1
+    if x[0] == 'field' and x[2] == '0' and x[1][0] == 'variant' and x[1][2] == 'Some' and is_raw(x[1][1]):
+        return k
+    if x[0] == 'phi':
+        vs = {_errno_value(a, k) for a in x[1]}
+        return vs.pop() if len(vs) == 1 else None
+    inner, neg = peel_not(x)
+    if neg:
+        v = _errno_value(inner, k)
+        return 1 - v if v in (0, 1) else None
+    if x[0] == 'bin' and x[1] in ('Eq', 'Ne'):
+        for p, q in ((x[2], x[3]), (x[3], x[2])):
+            if D.has_call(p, 'Error::raw_os_error') and not D.has_call(q, 'Error::raw_os_error'):
+                ks = [int(c[2]) for c in walk(q) if c[0] == 'const' and c[1] == 'int' and str(c[2]).lstrip('-').isdigit()]
+                if len(ks) == 1:
+                    return int((ks[0] == k) == (x[1] == 'Eq'))
+    return None
+
+
+def _reach_under_errno(F, body, k, sends):
+    """blocks a failed sendmsg (blocks `sends`) with errno k can reach before the next sendmsg: every SwitchInt decided by
+    `raw_os_error() == Some(k)` (_errno_value) only takes its matching edge.  A switch on a bool / integer local that is not
+    decided by its descriptor (a materialised test) is decided when all of its definitions lie between two sendmsg calls, every
+    path from the failed sendmsg to the switch passes one that is still reachable, and the still reachable ones agree (copies of
+    other locals are followed); iterated to the fixpoint.  Undecided switches keep all their edges."""
+    d = describer(F, body)
+    sends = set(sends)
+
+    def region(avoid, cut):
+        r = set()
+        for s in sends:
+            r |= body.reachable_strict(s, avoid=avoid, avoid_edges=cut)
+        return r
+    full = region(sends, set())
+    cut, known = set(), {}
+
+    def bare(o):
+        return o[1][0] if o[0] in ('c', 'm') and not o[1][1] and o[1][0] not in d.mut_borrowed else None
+
+    def local_value(l, use_bb, reach, depth):
+        defs = body.defs_of(l)
+        if not defs or any(df[0] not in ('stmt', 'call') for df in defs) or not {df[1] for df in defs} <= full:
+            return None
+        inb = {df[1] for df in defs} & reach
+        if use_bb not in inb and use_bb in region(sends | inb, cut):
+            return None
+        vals = set()
+        for df in defs:
+            if df[1] not in reach:
+                continue
+            if df[0] == 'call':
+                v = _errno_value(d.call_desc(df[2], 0), k)
+            else:
+                rv, v = df[3], None
+                if rv[0] == 'use':
+                    v = _int_operand(rv[1])
+                    m = bare(rv[1]) if v is None else None
+                    if m is not None and depth < 4:
+                        v = local_value(m, df[1], reach, depth + 1)
+                if v is None:
+                    v = _errno_value(d.rvalue(rv, df[1], df[2], 0), k)
+            vals.add(v)
+        return vals.pop() if len(vals) == 1 else None
+    while True:
+        reach = region(sends, cut)
+        new = False
+        for br in branches(F, body):
+            if br.bb in known or br.bb not in reach:
+                continue
+            v = _errno_value(br.desc, k)
+            if v is None:
+                l = bare(body.blocks[br.bb]['t'][1])
+                if l is not None:
+                    v = local_value(l, br.bb, reach, 0)
+            if v is not None:
+                known[br.bb] = v
+                keep = br.target(v)
+                cut |= {(br.bb, t) for _, t in br.edges if t != keep}
+                new = True
+        if not new:
+            return reach
 
 
 def _kind_edges(F, body):
